@@ -262,6 +262,10 @@ def _iter_a_cases(tier, kinds_lists):
                         yield ("split", mode, kinds, 1000, n, hostile)
                     if L.mode_applicable("zip", mode, kinds):
                         yield ("zip", mode, kinds, 1000, n, hostile)
+                        if n > 0 and any("usr" in k for k in kinds):
+                            # the same with data that are user objects (mutable, and hashable like any
+                            # object): only a branch that edits the data can tell
+                            yield ("zip-obj", mode, kinds, 1000, n, hostile)
 
 
 def run_a(res, p, tier):
